@@ -195,23 +195,27 @@ def walk_oracle(data, ans, hist=None):
             cands = [(a, b) for cc, a, b in ctoks if cc == c and a is not None and b is not None]
             if o is None:
                 continue
-            if role == "lead":
-                # before or inside the owner; or - a comment in front of the `)` / `,` that closes a parenthesised or
-                # listed expression is appended to that expression's leftmost leaf (C09's fixes bf0f58a, a2afe54) -
-                # between the end of the outermost node that starts where the owner starts and the next node after it
-                top = o
+            # Where exactly a comment is attached is the parser's (C09's) convention and has moved several times
+            # (comments before a closing `)`, `,`, `}` go to the leftmost leaf / the last case / ...).  The stable,
+            # position-level requirement: a comment attached to owner O lies in O's neighbourhood - not before the
+            # nearest ancestor that starts earlier than O, and not after the first node that follows O's parent
+            # (for a trailing module comment: after the last toplevel).
+            def next_after(x):
+                k = bisect.bisect_left(starts, max(x[3], x[2] + 1))
+                return starts[k] if k < len(starts) else len(data)
+            if role == "trailing":
+                okc = any(end_of_code <= a for a, b in cands)
+            else:
+                top = o             # outermost node that starts where the owner starts (leftmost-leaf chain)
                 while id(top) in parent and parent[id(top)][2] == o[2]:
                     top = parent[id(top)]
-                k = bisect.bisect_left(starts, max(top[3], top[2] + 1))
-                nxt = starts[k] if k < len(starts) else len(data)
-                okc = any(lower.get(id(o), 0) <= a and b <= max(top[3], nxt) for a, b in cands)
-            elif role == "inner":
-                okc = any(o[2] <= a and b <= o[3] for a, b in cands)
-            else:
-                okc = any(end_of_code <= a for a, b in cands)
+                par = parent.get(id(top))
+                lo = lower.get(id(o), 0) if role == "lead" else min(o[2], lower.get(id(o), 0))
+                hi = max(next_after(top), next_after(par) if par is not None else len(data))
+                okc = any(lo <= a and b <= hi for a, b in cands)
             if not okc:
                 bad.append(f"{role} comment {unhex(c[1:])[:30]!r} is attached to {o[1]} {o[4]} but no such comment lies "
-                           f"{'before/inside' if role == 'lead' else 'inside' if role == 'inner' else 'after'} it")
+                           f"{'after the last toplevel' if role == 'trailing' else 'in its neighbourhood (enclosing region up to the node after its parent)'}")
     for n in nodes:
         depth, kind, a, b, sp, name, kids = n
         if hist is not None:
@@ -266,7 +270,7 @@ def svc_oracle(module, data, ans, hist=None):
         kind, _, rest = head.partition("@")
         if hist is not None:
             hist[kind] = hist.get(kind, 0) + 1
-        locs = [] if val in ("none", "ok", "syn") else [parse_loc(x) for x in val.split(",")]
+        locs = [] if (val in ("none", "syn") or val.startswith("ok")) else [parse_loc(x) for x in val.split(",")]
         for mod, sp, inside, cov in locs:
             if not inside:
                 bad.append(f"{kind} at {rest}: result {mod} {sp} is outside its document or has start after end")
@@ -296,6 +300,15 @@ def svc_oracle(module, data, ans, hist=None):
                         bad.append(f"folding ranges {x} and {y} partially overlap")
         elif kind == "rename" and val == "syn":
             bad.append(f"rename at {rest} produced a module that no longer parses")
+        elif kind == "rename" and val.startswith("ok:") and clean:
+            # the LSP edit is one replacement of the whole document: its content must rename exactly the references
+            _, n_new, n_refs = val.split(":")
+            # (a parameter of a body-less interface method is found as its own single reference but is not rewritten:
+            #  observation forwarded to C15, exempt here)
+            if int(n_refs) > 0 and n_new != n_refs and not (n_new == "0" and n_refs == "1"):
+                bad.append(f"rename at {rest} wrote the new name {n_new} time(s) but the variable has {n_refs} reference(s)")
+        elif kind == "diag":
+            pass    # in-document and start <= end of the diagnostic and of each of its reference locations: checked above
     return bad[:12]
 
 
